@@ -135,6 +135,16 @@ def _one(job):
     role, src = job
     import subprocess
     t0 = time.time()
+    if role.startswith("corpus:"):
+        # one of the repo's own programs, compiled where it lies (it may import neighbouring files)
+        try: r = subprocess.run([_CTX["sylt"], "-o", "-", src], cwd=common.REPO, capture_output=True, text=True, errors="surrogateescape", timeout=120)
+        except subprocess.TimeoutExpired: return (role, "timeout", "compiler did not finish in 120 s", src, None)
+        if r.returncode != 0: return (role, "rejected", r.stdout[-200:], src, None)
+        st = {}
+        try: parse(r.stdout, st)
+        except LuaSyntaxError as e: return (role, "load_error", str(e), open(src, errors="replace").read(), r.stdout)
+        except RecursionError: return (role, "load_error", "parser recursion (nesting beyond the C-levels limit)", open(src, errors="replace").read(), r.stdout)
+        return (role, "loads", "", src, None)
     try: rc, lua, out = common.compile_sy(_CTX["sylt"], {"main.sy": src}, timeout=20)
     except subprocess.TimeoutExpired: return (role, "timeout", "compiler did not finish in 20 s", src, None)
     if rc != 0 or lua is None: return (role, "rejected", out[-300:], src, None)
@@ -160,6 +170,10 @@ def run(tier):
     jobs += structural(tier)
     n_s = len(jobs) - n_w
     for t in templates_core.CATALOGUE: jobs.append(("catalogue:" + t["name"], A.render(t["text"])[0]))
+    from luasym import runner
+    import os
+    root = common.repo_path("tests"); n_c = 0
+    for f in runner.corpus(root): jobs.append(("corpus:" + os.path.relpath(f, root), f)); n_c += 1
     import threading
     threading.stack_size(256 * 1024 * 1024)
     with mp.get_context("fork").Pool(16) as pool: results = pool.map(_one, jobs, chunksize=4)
@@ -181,11 +195,11 @@ def run(tier):
             fnd.undecided("%s: rejected by the compiler: %s" % (role, msg.replace("\n", " ")[:200]))
         if st == "timeout": print("NOTE compiler timeout (not a C06 matter, see C07): " + role)
         if len(samples) < 6 and (st != "loads" or role.startswith(("identifier-is", "string-raw"))): samples.append({"case": role, "result": st, "detail": msg[:160]})
-    cov = {"explanation": "three parts: (1) %d spelling witnesses chosen by z3 from the token languages of token.rs (identifiers that are Lua reserved words, string-body classes, numeral shapes), each compiled in a minimal program and loaded; (2) %d structural programs (each expression kind unused / last / discarded, bodies with m calls/reads/locals, many globals/functions, deep nesting); (3) %d catalogue chunks. 'loads' = accepted by luaparse (Lua 5.3 grammar + assignment-target, break, goto/label, 200-locals, 255-upvalues, 200 C-levels rules)." % (n_w, n_s, len(templates_core.CATALOGUE)),
+    cov = {"explanation": "three parts: (1) %d spelling witnesses chosen by z3 from the token languages of token.rs (identifiers that are Lua reserved words, string-body classes, numeral shapes), each compiled in a minimal program and loaded; (2) %d structural programs (each expression kind unused / last / discarded, bodies with m calls/reads/locals, many globals/functions, deep nesting); (3) %d catalogue chunks and every accepted program of tests/**/*.sy (%d files). 'loads' = accepted by luaparse (Lua 5.3 grammar + assignment-target, break, goto/label, 200-locals, 255-upvalues, 200 C-levels rules)." % (n_w, n_s, len(templates_core.CATALOGUE), n_c),
            "evaluations": len(jobs), "distinct_nontrivial": counts["loads"] + counts["load_error"], "counts": counts, "samples": samples,
            "solver": stats.as_dict(), "token_languages": "regenerated from sylt-tokenizer/src/token.rs on this run", "known_findings_seen": sorted(fnd.seen_known)}
     rc = fnd.finish()
     common.write_evidence("C06", tier, "other", cov, ["logos implements longest-match over the declared token set (trusted)", "\\d is modelled as ASCII digits", "{:?} formatting of finite f64 is taken from Rust's documented behaviour",
                                                        "the C-levels limit of the real lua binary is a few levels below 200 (its own C frames); luaparse uses 200"], time.time() - t0, len(fnd.violations))
-    print("C06: %d cases (%d witnesses, %d structural, %d catalogue): %s, wall %.1fs" % (len(jobs), n_w, n_s, len(templates_core.CATALOGUE), counts, time.time() - t0))
+    print("C06: %d cases (%d witnesses, %d structural, %d catalogue, %d corpus programs): %s, wall %.1fs" % (len(jobs), n_w, n_s, len(templates_core.CATALOGUE), n_c, counts, time.time() - t0))
     return rc
